@@ -46,7 +46,9 @@ pub fn on_fresh_thread_seeded<T: Send, F: FnOnce() -> T + Send>(seed: u64, f: F)
             let _ = rx.recv();
             h
         };
-        h.join().unwrap_or_else(|e| std::panic::resume_unwind(e))
+        let r = h.join().unwrap_or_else(|e| std::panic::resume_unwind(e));
+        crate::report::tick();
+        r
     })
 }
 
